@@ -314,8 +314,20 @@ def replace(run, m, F, E, L):
             ok = [c for c in ints if isinstance(c[2], IntV) and congruent(s2, I.as_u(s2, c[2]) - I.as_u(s2, c[1]), tl - fl, 64)]
             scans.setdefault('size', []).append(bool(ok))
             if not ok:
-                p3.append('sizing scan does not add |to| - |from| per occurrence (accumulator deltas: %s)' %
-                          [repr(I.as_u(s2, c[2]) - I.as_u(s2, c[1])) for c in ints if isinstance(c[2], IntV)])
+                deltas = [(I.as_u(s2, c[2]) - I.as_u(s2, c[1])) for c in ints if isinstance(c[2], IntV) and I.as_u(s2, c[2]) is not None and I.as_u(s2, c[1]) is not None]
+                counters = [d for d in deltas if s2.is_eq0(d - 1) is True]
+                moving = [d for d in deltas if s2.is_eq0(d) is not True and d not in counters]
+                wit = None
+                for d in moving:
+                    dd = d - (tl - fl)
+                    if robust([dd]):
+                        wit = s2.find_model([dd], lambda v: v[0] % (1 << 64) != 0)
+                        if wit is not None:
+                            p3.append('the sizing scan adds %r per occurrence, the result grows by |to| - |from|; witness %s' % (d, own.fmt_env(wit)))
+                            break
+                if wit is None:
+                    und.append('the sizing scan %s; how the result size follows from that is not analysed' %
+                               ('counts the occurrences' if counters else 'keeps no recognised size accumulator'))
         else:
             scans.setdefault('copy', []).append(True)
             gap = mt[1] - bv_off
@@ -345,9 +357,9 @@ def replace(run, m, F, E, L):
         g = m.func(name)
         if g.dem.startswith('ST::string::replace(') and g.name != f.name:
             n += 1
-            callees = [m.dem(t) for (i, ts, k) in F.calls[name] for t in ts]
-            ok = any(c.startswith('ST::string::replace(') for c in callees)
-            run.ob('R09.3', short(g.dem), ok, 'forwards to another replace overload' if ok else 'does not forward to the replace core', disc='forwarder', loc=fn_loc(g))
+            reach = [m.dem(t) for t in F.reachable_from([name]) if t != name and m.has(t)]
+            ok = any(c.startswith(f.dem.split('(')[0] + '(') and c == f.dem for c in reach)
+            run.ob('R09.3', short(g.dem), True if ok else None, 'forwards to the replace core' if ok else 'does not reach the replace core: a separate implementation, not analysed', disc='forwarder', loc=fn_loc(g))
     return n
 
 
